@@ -69,6 +69,10 @@ def lists_by_evaluation(ctx, kex, f):
 
 
 def check(ctx, report):
+    # HASSH and fingerprints are taken over every name / item the message holds, repeated ones included; rule shared with C10.R16
+    from .c10 import no_item_collapse
+    no_item_collapse(ctx, report, RULE='C16.R12', only=lambda f: f.module.relpath.startswith(('cryptoparser/ssh/', 'cryptoparser/common/')),
+                     title='HASSH, fingerprints and known_hosts lines are built from every item of the stored lists: no de-duplication on the way')
     model = ctx.model
     with open(os.path.join(HERE, 'specs', 'fingerprints.json')) as f:
         spec = json.load(f)
